@@ -285,8 +285,8 @@ def mc_c14(results):
             'state_graph_note': 'states = finite float/double bit patterns visited; transitions = nextFloat/prevFloat (and n-step chains) executed on the implementation; every transition is compared with the reference model, so validated == transitions'}
 
 _C15_TABLE_Q = [('drivers/c01.cpp', [0, 3, 5, 7], [], ['-O1']), ('drivers/c11.cpp', None, ['-lquadmath'], []), ('drivers/c14.cpp', None, [], []), ('drivers/c05.cpp', None, [], []),
-                ('drivers/c18.cpp', None, [], []), ('drivers/c06.cpp', None, [], []), ('drivers/c13.cpp', None, [], []), ('drivers/c04.cpp', None, [], [])]
-_C15_TABLE_T = [('drivers/c01.cpp', list(range(15)), [], ['-O1'])] + _C15_TABLE_Q[1:] + [('drivers/c07.cpp', None, [], []), ('drivers/c12.cpp', None, [], []), ('drivers/c02.cpp', [0, 1, 2], [], ['-O1']), ('drivers/c09.cpp', None, [], ['-DC09_RECOMPOSE_DOUBLE']), ('drivers/c10.cpp', None, [], []), ('drivers/c19.cpp', None, [], [])]
+                ('drivers/c18.cpp', None, [], []), ('drivers/c06.cpp', None, [], []), ('drivers/c13.cpp', None, [], []), ('drivers/c04.cpp', None, [], []), ('drivers/c02.cpp', [1], [], ['-O1']), ('drivers/c09.cpp', None, [], ['-DC09_RECOMPOSE_DOUBLE'])]
+_C15_TABLE_T = [('drivers/c01.cpp', list(range(15)), [], ['-O1'])] + _C15_TABLE_Q[1:-2] + [('drivers/c07.cpp', None, [], []), ('drivers/c12.cpp', None, [], []), ('drivers/c02.cpp', [0, 1, 2], [], ['-O1']), ('drivers/c09.cpp', None, [], ['-DC09_RECOMPOSE_DOUBLE']), ('drivers/c10.cpp', None, [], []), ('drivers/c19.cpp', None, [], [])]
 
 _C20_TABLE_Q = [('drivers/c01.cpp', [0, 3, 5, 7, 9, 11, 13], [], []), ('drivers/c11.cpp', None, [], []), ('drivers/c14.cpp', None, [], []), ('drivers/c05.cpp', None, [], []), ('drivers/c18.cpp', None, [], []),
                 ('drivers/c06.cpp', None, [], []), ('drivers/c07.cpp', None, [], []), ('drivers/c02.cpp', [0, 1], [], []), ('drivers/c12.cpp', None, [], []), ('drivers/c13.cpp', None, [], []), ('drivers/c19.cpp', None, [], [])]
@@ -315,9 +315,9 @@ PROPS = {
    text='The drivers of the other properties are rebuilt with -fsanitize=undefined,float-cast-overflow,address -fsanitize-recover=all and their domains are enumerated again (domains larger than the cap on the sub-lattice of every s-th index); the weak hooks __ubsan_on_report / __asan_on_error record kind, file, line and the current (op, input), so every distinct undefined operation inside a glm/ source file within a documented domain becomes a replayable violation. Known findings are keyed by (file, line, kind).',
    rule='operation table x documented-precondition filter of each driver (out-of-domain inputs are skipped before GLM is called) x sanitizer configurations {clang pure, clang AVX2 in thorough}; evaluations are instrumented executions.'),
  'C16': dict(src='drivers/c16.cpp', level='exploration', parts=6, flags=['-O0'],
-   configs=['default', 'swizzle', 'xyzw_only', 'size_t_length', 'quat_wxyz', 'ctor_init', 'cxx98', 'intr_sse2', 'intr_avx', 'intr_avx2', 'intr_avx2_defaligned', 'swizzle_intr'],
-   configs_quick=['default', 'xyzw_only', 'size_t_length', 'quat_wxyz', 'intr_sse2', 'intr_avx2_defaligned', 'swizzle_intr'],
-   technique='exhaustive enumeration of the program space: every vec<L,T,Q>, mat<C,R,T,Q>, qua<T,Q> instantiation (L 1..4, C,R 2..4, 11 element types, packed and - with intrinsics - aligned qualifiers) x 12 build configurations, each layout fact observed by executing the generated program and compared with the documented contract',
+   configs=['default', 'swizzle', 'xyzw_only', 'size_t_length', 'quat_wxyz', 'ctor_init', 'cxx98', 'intr_sse2', 'intr_avx', 'intr_avx2', 'intr_avx2_defaligned', 'swizzle_intr', 'intr_sse2_wxyz', 'intr_avx2_wxyz', 'intr_sse2_clang'],
+   configs_quick=['default', 'xyzw_only', 'size_t_length', 'quat_wxyz', 'intr_sse2', 'intr_avx2_defaligned', 'swizzle_intr', 'intr_sse2_wxyz'],   # *_wxyz: the quaternion order switch combined with SIMD storage
+   technique='exhaustive enumeration of the program space: every vec<L,T,Q>, mat<C,R,T,Q>, qua<T,Q> instantiation (L 1..4, C,R 2..4, 11 element types, packed and - with intrinsics - aligned qualifiers) x 15 build configurations, each layout fact observed by executing the generated program and compared with the documented contract',
    text='For every instantiation and configuration: sizeof, alignof, component addresses (&v[i] == &v.x + i, column addresses), named-member order incl. quaternion x,y,z,w / w,x,y,z, value_ptr aliasing value_ptr(m)[c*R+r] == m[c][r], byte image through value_ptr vs operator[], make_vec/make_mat/make_quat round trips, length() value and type (int / size_t), trivially-copyable round trip. Facts are observed at run time, so one wrong fact does not hide the rest; 462 (packed) or 924 (with aligned types) instantiations per configuration, complete.',
    rule='INSTANTIATIONS = complete table of type descriptors (kind|C|R|T|Q) per configuration; every fact op enumerates the whole table; quick and thorough are the same complete set.'),
  'C15': dict(run=run_differential, replay=replay_differential, level='exploration', src='drivers/c01.cpp', cap=20000,
@@ -335,7 +335,7 @@ PROPS = {
    technique='exhaustive enumeration of the parameter lattice (l<r, b<t, near<far, fovy, aspect, width/height, viewports) x every builder variant in all four clip-control build configurations; oracle = the view-volume corners must map to the clip-cube corners, dispatch must be bit-identical to the selected suffixed variant',
    text='Every ortho/frustum/perspective/perspectiveFov/infinitePerspective/tweakedInfinitePerspective variant (RH/LH x NO/ZO) maps its eight view-volume corners (infinite: near corners + depth monotone and bounded along 2^k.near) to the clip cube; perspective == symmetric frustum; perspectiveFov == perspective(w/h); in each of the four macro configurations the unsuffixed and half-suffixed builders are bit-identical to the fully suffixed variant the macros select; project/unProject/pickMatrix against the formula, mutual inverses, cube -> viewport x [0,1].',
    rule='full product of the DESIGN section C08 parameter grids (quick) / denser grids (thorough), float and double, in each configuration; cases whose error bound cannot be formed (singular to working precision) are counted trivial.'),
- 'C09': dict(src='drivers/c09.cpp', level='exploration', configs=['default', 'lh', 'zo', 'lh_zo', 'intr_sse2_defaligned', 'intr_avx2_defaligned_wxyz'], configs_quick=['default', 'lh', 'zo', 'lh_zo', 'intr_sse2_defaligned'], flags=['-DC09_RECOMPOSE_DOUBLE'],
+ 'C09': dict(src='drivers/c09.cpp', level='exploration', configs=['default', 'lh', 'zo', 'lh_zo', 'quat_wxyz', 'intr_sse2_defaligned', 'intr_avx2_defaligned_wxyz'], configs_quick=['default', 'lh', 'zo', 'lh_zo', 'quat_wxyz', 'intr_sse2_defaligned'], flags=['-DC09_RECOMPOSE_DOUBLE'],
    technique='exhaustive enumeration of base matrices x vectors x axes x angle ladders x shear parameters through every transform builder, against M * E with E built entrywise in long double; lookAt frames and TRS(+skew,+perspective) compositions through decompose/recompose; default and left-handed builds',
    text='translate/rotate/scale/shear (fast and _slow forms), gtx transform/transform2/rotate_vector/rotate_normalized_axis/matrix_transform_2d/matrix_interpolation helpers equal M times the elementary matrix; lookAtRH/LH are rigid, send eye to 0, the view direction to -z/+z and up into the +y half-plane, and lookAt follows the configured handedness; recompose(decompose(M)) == M over rotation set x scales x translations x skews x perspective kinds with every quaternion-extraction branch reached.',
    rule='M(36 base matrices) x VEC3L(378) x 80 axes x 133 (805) angles x shear grids; 3.39M (31M) TRS compositions; invalid lookAt frames skipped (trivial).'),
@@ -368,11 +368,12 @@ PROPS = {
    technique='exhaustive enumeration of every code of every field of every pack format (all 2^2..2^16 codes per field, three companion patterns) and of structured float lattices (all 2^32 floats for the scalar pack functions, thorough) through pack/unpack, against a per-format reference decoder',
    text='37 formats described once (field offset/width/kind) and explored generically. Code sweep: every code of every <=16-bit field (complete) - decode value and component order, re-pack of canonical codes, unpack.pack.unpack idempotence, Inf/NaN codes, monotone decoding. Real sweep: every float of F32_EDGE + a grid around every quantisation step (quick) / all 2^32 floats for single-field formats (thorough) in every field: half-step (normalised) or one-mantissa-step (small float, shared exponent) accuracy, clamping at both range ends, monotonicity, no cross-talk between fields. F3x9_E1x5: all 2^32 words in the thorough tier.',
    rule='codes: ALL_CODES = {format} x {field} x {0..2^w-1} x {companions 0, all-ones, tag}; 32-bit integer fields over INT32_EDGE. reals: {format} x {field} x (STEP_GRID + F32_EDGE), thorough adds F32_ALL for single-field formats and every 257th float for the others. NaN inputs and non-real formats are skipped in the real sweep (counted trivial).'),
- 'C14': dict(src='drivers/c14.cpp', level='model_checking', mc=mc_c14,
+ 'C14': dict(src='drivers/c14.cpp', level='model_checking', mc=mc_c14, configs=['default', 'cxx98', 'clang'], configs_quick=['default', 'cxx98'],   # cxx98: the bundled nextafter / pre-C++11 branches of gtc/ulp
+  
    technique='explicit-state exploration of the float successor graph: every state (all 2^32 float patterns in the thorough tier) has its nextFloat and prevFloat transitions executed on the implementation and checked against integer arithmetic on the IEEE total order',
    text='States are float bit patterns, transitions are nextFloat/prevFloat; each transition is executed on the real code and validated against the reference model (ordered-integer successor), with the invariants prev(next(x))=x, strict monotonicity and distance 1. Thorough visits all 2^32 float states (2^33 transitions); n-step overloads, floatDistance and ULP/epsilon comparisons (scalar, vec1-4, six matrix shapes, quaternion) are explored on lattices that contain every binade edge, both zeros, subnormals and chains crossing zero.',
    rule='states: F32_ALL (thorough) / F32_EDGE (quick), F64_EDGE; n-step: states x n in {0,1,2,3,7,64} incl. +-0..79 ulp around zero; ULP comparisons: state x distance {0..4,7,8,63,64,65} x {up,down} x maxULPs {0,1,2,4,64}; epsilon comparisons: SPEC^2 x 10 epsilons. Non-trivial = finite state whose targets stay finite.'),
- 'C11': dict(src='drivers/c11.cpp', level='exploration', libs=['-lquadmath'],
+ 'C11': dict(src='drivers/c11.cpp', level='exploration', libs=['-lquadmath'], configs=['default', 'intr_sse2_defaligned', 'intr_avx2_defaligned'], configs_quick=['default', 'intr_sse2_defaligned'],
    technique='exhaustive enumeration of all 2^32 float bit patterns through every unary common function (thorough; structured 6.6e5-point lattice + all ties quick), complete special-value products for n-ary functions, every constant against __float128',
    text='Unary functions (floor ceil trunc round roundEven fract abs sign isnan isinf frexp/ldexp modf iround uround texcoord wraps, bit casts) are decided for every float bit pattern in the thorough tier and on a lattice containing every binade edge, tie and special value in the quick tier; doubles on the analogous lattice; n-ary functions (min max step fmin fmax mod clamp fclamp mix smoothstep fma, 3-/4-operand forms) on the complete product of a ~77-value special lattice; all 31 constants x {float,double} compared bit-for-bit with quad-precision evaluations.',
    rule='F32_ALL (2^32 patterns, thorough) / F32_EDGE + F32_TIES (quick); F64_EDGE(+ties beyond 2^31..2^51); F32_SPEC^2, ^3 and a 21-value sublist ^4, same for double. Non-trivial = input inside the function domain (finite for fract/frexp/texcoords, non-negative representable for iround/uround, no signalling NaN for fmin/fmax); distinct by construction.'),
